@@ -7,6 +7,7 @@ import Geodesy.Model.Proj
 import Geodesy.Model.Ctx.Context
 import Geodesy.Model.Num.Angular
 import Geodesy.Model.Cli.Kp
+import Geodesy.Model.Num.Ntv2
 import Geodesy.Gen.Tables
 
 open Geodesy Geodesy.Text Geodesy.Wire
@@ -245,8 +246,64 @@ def handleKp (fields : List String) : String :=
       "rc=" ++ (if ok then "0" else "1") ++ " out=" ++ escape (String.join (out.map (· ++ "\n"))).toList
   | _ => "bad-case"
 
+def floatNum : Ntv2.Num Float :=
+  { f64 := fun b => Float.ofBits b, f32 := fun b => (Float32.ofBits b).toFloat }
+
+def hexBytes (s : String) : List UInt8 :=
+  let rec go : List Char → List UInt8
+    | a :: b :: rest => UInt8.ofNat ((hexVal a).getD 0 * 16 + (hexVal b).getD 0) :: go rest
+    | _ => []
+  go s.toList
+
+/-- a decoded grid file: its look-up function and band count, or the error class -/
+def decodeGrid (fmt payload : String) : Except Err (Nat × (Float → Float → Float → Option (Coor Float))) :=
+  if fmt == "gravsoft" then
+    match (Grid.gravsoft (u payload) : Except Err (Grid.BaseGrid Float)) with
+    | .ok g => .ok (g.bands, fun lon lat m => Grid.atPoint g lon lat m)
+    | .error e => .error e
+  else
+    match Ntv2.decode floatNum (hexBytes payload) with
+    | .ok g => .ok (2, fun lon lat m => Ntv2.atPoint g lon lat m)
+    | .error e => .error e
+
+def dumpAt (r : Option (Coor Float)) : String := match r with | some c => dumpCoor c | none => "none"
+
+def parsePoints (s : String) : List (Float × Float) :=
+  if s.isEmpty then [] else (s.splitOn ";").map fun p =>
+    match (p.splitOn ",").map parseFloat with
+    | [a, b] => (a, b)
+    | _ => (0, 0)
+
+def handleGrid (fields : List String) : String :=
+  match fields with
+  | [fmt, payload, margin, points] =>
+    match decodeGrid fmt payload with
+    | .error e => "err " ++ e.name
+    | .ok (bands, look) =>
+      let m := parseFloat margin
+      "ok bands=" ++ toString bands ++ " at=" ++ ";".intercalate ((parsePoints points).map fun p => dumpAt (look p.1 p.2 m))
+  | _ => "bad-case"
+
+/-- `grids_at` over a list of grid files -/
+def handleGrids (fields : List String) : String :=
+  match fields with
+  | nstr :: rest =>
+    let k := nstr.toNat!
+    let (pairs, rest) := takePairs k rest
+    match rest with
+    | [useNull, points] =>
+      match pairs.mapM (fun p => match decodeGrid p.1 p.2 with | .ok g => some g | .error _ => none) with
+      | none => "err decode"
+      | some gs =>
+        ";".intercalate ((parsePoints points).map fun p =>
+          dumpAt (Grid.gridsAt (gs.map fun g => fun m => g.2 p.1 p.2 m) (useNull == "1")))
+    | _ => "bad-case"
+  | _ => "bad-case"
+
 def handle (line : String) : String :=
   match line.splitOn "\t" with
+  | "GRID" :: rest => handleGrid rest
+  | "GRIDS" :: rest => handleGrids rest
   | "KP" :: rest => handleKp rest
   | "ANG" :: rest => handleAng rest
   | "HIST" :: rest => handleHist rest
